@@ -47,6 +47,11 @@ class Build(object):
         self.modname = "verif_x05_%s" % self.tag
         self.module = types.ModuleType(self.modname)
         sys.modules[self.modname] = self.module
+        # registry points and their implementations live in a module below insights.specs, like Specs / DefaultSpecs
+        self.specmodname = "insights.specs.verif_x05_%s" % self.tag
+        self.specmodule = types.ModuleType(self.specmodname)
+        sys.modules[self.specmodname] = self.specmodule
+        self.point_of_name = {}
         self.tbase = type("tbase_%s" % self.tag, (dr.ComponentType,), {})
         self.tsub = type("tsub_%s" % self.tag, (self.tbase,), {})
         self.types = {"base": self.tbase, "sub": self.tsub}
@@ -91,10 +96,11 @@ class Build(object):
         if kind == "point":
             cname = "Specs_%s_%d" % (self.tag, c)
             attr = "p%d" % c
-            want = "%s.%s.%s" % (self.modname, cname, attr)
+            want = "%s.%s.%s" % (self.specmodname, cname, attr)
             self._early(c, want)
-            base = type(cname, (SpecSet,), {attr: RegistryPoint(prio=p["prio"] - 1), "__module__": self.modname})
-            setattr(self.module, cname, base)
+            base = type(cname, (SpecSet,), {attr: RegistryPoint(prio=p["prio"] - 1), "__module__": self.specmodname})
+            setattr(self.specmodule, cname, base)
+            self.point_of_name[attr] = c
             self.classes.append(base)
             self._bind(c, getattr(base, attr), want)
             self.specset = getattr(self, "specset", {})
@@ -147,10 +153,10 @@ class Build(object):
                 how = "specset"
                 base, attr = self.specset[c]
                 cname = "Impl_%s_%d_%d" % (self.tag, c, d)
-                cls = type(cname, (base,), {attr: self.comp[d], "__module__": self.modname})
-                setattr(self.module, cname, cls)
+                cls = type(cname, (base,), {attr: self.comp[d], "__module__": self.specmodname})
+                setattr(self.specmodule, cname, cls)
                 self.classes.append(cls)
-                self.want[d] = "%s.%s.%s" % (self.modname, cname, attr)
+                self.want[d] = "%s.%s.%s" % (self.specmodname, cname, attr)
                 self.simple[d] = attr
             else:
                 dr.add_dependency(self.comp[c], self.comp[d])
@@ -182,6 +188,7 @@ class Build(object):
         dr.COMPONENTS_BY_NAME.clear()
         dr.COMPONENT_IMPORT_CACHE.clear()
         sys.modules.pop(self.modname, None)
+        sys.modules.pop(self.specmodname, None)
 
 
 class Hang(BaseException):
@@ -347,6 +354,20 @@ def ev_help(b, c, pres):
                 s1=s1, s2=s2)
 
 
+def ev_specs(b, c):
+    """get_dependency_specs: names -> the registry point the driver gave that name, tuple -> or, list -> and"""
+    def enc(x):
+        if isinstance(x, str):
+            return dict(t="var", n=b.point_of_name.get(x, 0), xs=[])
+        if isinstance(x, tuple):
+            return dict(t="or", n=0, xs=[enc(y) for y in x])
+        if isinstance(x, list):
+            return dict(t="and", n=0, xs=[enc(y) for y in x])
+        return dict(t="other", n=0, xs=[])
+    exc, r = guarded(lambda: dr.get_dependency_specs(b.comp[c]))
+    return dict(ev="specs", c=c, exc=exc, islist=isinstance(r, list), f=[enc(x) for x in r] if isinstance(r, list) else [])
+
+
 def ev_stranger(b):
     def never_registered():
         return None
@@ -385,6 +406,13 @@ def count(e, stats):
         bump(stats, "help:missing-" + e["missk"])
         if e["first"] > 0:
             bump(stats, "help:first_of-found")
+    if k == "specs":
+        js = json.dumps(e["f"])
+        for t in ("var", "or", "and"):
+            if '"t": "%s"' % t in js:
+                bump(stats, "specs:" + t)
+        if any(x["t"] == "or" and any(y["t"] == "and" for y in x["xs"]) for x in e["f"]):
+            bump(stats, "specs:list-in-tuple")
     if k == "deps" and e["na"] > 0:
         bump(stats, "deps:after-add")
     if k == "tree" and e["nodes"]:
@@ -457,6 +485,9 @@ def run_prog_case(case, rng, stats):
                 evs.append(ev_dgraph(b, na, q["root"]))
         elif q["t"] == "help":
             evs.append(ev_help(b, q["root"], q["pres"]))
+        elif q["t"] == "specs":
+            if not cyclic:
+                evs.append(ev_specs(b, q["root"]))
     finally:
         b.cleanup()
     for e in evs:
